@@ -101,6 +101,9 @@ func checkC03(c *Ctx, r *Report) {
 	// a recycled event (every field stale, handed back through PutEvent) through every entry point in every environment
 	// class: nothing stale may be published
 	entryOK := c.checkEntrySemantics(r, ro, "C03.entry-values")
+	// the line of an event is a function of that event alone: the layouts evaluated over their value domain, each
+	// field slice with caller-owned elements in its spare capacity that formatting must not touch
+	c.checkLayoutSemantics(r, ro, "C03.layout-values")
 	allEntries := len(ro.EntryPoints) > 0
 	for _, E := range ro.EntryPoints {
 		allEntries = allEntries && entryOK[E.Name()]
